@@ -45,9 +45,9 @@ pub fn string_alphabet(pos: Pos) -> Vec<String> {
     let s = |x: &str| x.to_owned();
     match pos {
         // (the last three: texts that mean something to the adapter's own layers when they stand in *another* header)
-        Pos::Header | Pos::Meta => vec![s("a b"), s("a  b"), s("a,b"), s("a;b=\"c\""), s("%41"), s("+"), "h".repeat(255), s("aws-chunked"), s("STREAMING-AWS4-HMAC-SHA256-PAYLOAD"), s("multipart/form-data; boundary=x")],
-        Pos::Query => vec![s(""), s(" a "), s("a\t"), s("a b"), s("a+b"), s("a%b"), s("a%41b%2Fc%25"), s("a&b=c"), s("a/b"), s("a?b"), s("a#b"), s("é"), s("😀"), s(".."), "q".repeat(1024)],
-        Pos::Label => vec![s(" a "), s("a b"), s("a+b"), s("a%b"), s("a%41b%2Fc%25"), s("a&b=c"), s("a/b"), s("a?b"), s("a#b"), s("é"), s("😀"), s("a/../b"), "k".repeat(1024)],
+        Pos::Header | Pos::Meta => vec![s("a b"), s("a  b"), s("a,b"), s("a;b=\"c\""), s("%41"), s("%ff"), s("+"), "h".repeat(255), s("aws-chunked"), s("STREAMING-AWS4-HMAC-SHA256-PAYLOAD"), s("multipart/form-data; boundary=x")],
+        Pos::Query => vec![s(""), s(" a "), s("a\t"), s("a b"), s("a+b"), s("a%b"), s("a%41b%2Fc%25"), s("50%cashback%ff"), s("a&b=c"), s("a/b"), s("a?b"), s("a#b"), s("é"), s("😀"), s(".."), "q".repeat(1024)],
+        Pos::Label => vec![s(" a "), s("a b"), s("a+b"), s("a%b"), s("a%41b%2Fc%25"), s("50%cashback%ff"), s("a&b=c"), s("a/b"), s("a?b"), s("a#b"), s("é"), s("😀"), s("a/../b"), "k".repeat(1024)],
         // (an empty payload is indistinguishable from an absent one on the wire, so "" is not a payload value)
         Pos::Payload => vec![s(" a "), s(" "), s("\t\n"), s("<a&b>\"'"), s("x&amp;y&#65;&lt;"), s("]]>"), s("é😀"), s("a\tb\nc"), s("\r"), s("\u{85}"), s("\u{fffd}")],
         Pos::Xml => vec![s(""), s(" a "), s(" "), s("\t\n"), s("<a&b>\"'"), s("x&amp;y&#65;&lt;"), s("]]>"), s("é😀"), s("a\tb\nc"), s("\r"), s("\u{85}"), s("\u{fffd}")],
